@@ -49,6 +49,21 @@ type Case struct {
 	Rounds  int          `json:"rounds"`
 	Procs   int          `json:"gomaxprocs"`
 	Cold    bool         `json:"cold_start,omitempty"`
+	// Defaults: the package-level defaults are assigned by the goroutine that
+	// starts the others, before any call of the workload (and put back after it).
+	Defaults *PkgDefaults `json:"package_defaults,omitempty"`
+}
+
+type PkgDefaults struct {
+	Neg   bool  `json:"support_negative_indices"`
+	Limit int64 `json:"accumulated_copy_size_limit"`
+}
+
+func (c Case) setDefaults(api calls.API) func() {
+	if c.Defaults == nil {
+		return func() {}
+	}
+	return api.Defaults(c.Defaults.Neg, c.Defaults.Limit)
 }
 
 func draw(pkg string) func(*rapid.T) Case {
@@ -59,6 +74,9 @@ func draw(pkg string) func(*rapid.T) Case {
 			Rounds: gen.Uniform(t, 1, 3, "rounds"),
 			Procs:  rapid.SampledFrom([]int{1, 2, 4, 16}).Draw(t, "procs"),
 			Cold:   gen.OneIn(t, 12, "cold")}
+		if gen.OneIn(t, 4, "pkgdefaults") {
+			c.Defaults = &PkgDefaults{Neg: rapid.Bool().Draw(t, "pdneg"), Limit: rapid.SampledFrom([]int64{0, 0, 40, 400}).Draw(t, "pdlimit")}
+		}
 		// a common list of calls that several goroutines perform (so that the same
 		// shared Patch and buffers are used at the same time), plus a few of their own
 		nc := gen.Uniform(t, 3, 10, "ncommon")
@@ -352,6 +370,7 @@ func TestColdChild(t *testing.T) {
 		bufs[i] = calls.NewBuf(b)
 	}
 	msg := ""
+	defer c.setDefaults(api)()
 	// first: nothing at all has run in this process; every goroutine decodes and applies on its own
 	var shared map[int]*sharedPatch
 	var err error
@@ -424,6 +443,7 @@ func check(c Case) ev.Verdict {
 	for i, b := range c.Bufs {
 		bufs[i] = calls.NewBuf(b)
 	}
+	defer c.setDefaults(api)()
 	shared, err := prepare(api, c, bufs)
 	if err != nil {
 		return ev.Verdict{Err: err}
@@ -495,10 +515,13 @@ func check(c Case) ev.Verdict {
 	if c.Cold {
 		v.Classes = append(v.Classes, "cold-start")
 	}
+	if c.Defaults != nil {
+		v.Classes = append(v.Classes, "package-defaults-assigned-first")
+	}
 	return v
 }
 
-const rule = "workload = pool of 4-11 shared buffers (as C09) x 2/4/8/16 goroutines, each 2-12 calls drawn mostly from a common list of 3-10 calls (so the same shared Patch value and buffers are in use at the same time), 1 in 6 on private copies, 1 in 4 preceded by a yield, repeated 1-3 rounds behind a start barrier under GOMAXPROCS 1/2/4/16; 1 workload in 12 also runs as a cold start in a fresh process; race-detector build; non-trivial = one shared Patch value is applied by >=2 goroutines and >=3 different API functions are each called by >=2 goroutines; distinct = distinct serialised workload"
+const rule = "workload = pool of 4-11 shared buffers (as C09) x 2/4/8/16 goroutines, each 2-12 calls drawn mostly from a common list of 3-10 calls (so the same shared Patch value and buffers are in use at the same time), 1 in 6 on private copies, 1 in 4 preceded by a yield, repeated 1-3 rounds behind a start barrier under GOMAXPROCS 1/2/4/16; 1 workload in 12 also runs as a cold start in a fresh process; 1 in 4 assigns the package-level defaults (negative indices on/off, copy limit 0/40/400) before any call, also in the cold-start child; race-detector build; non-trivial = one shared Patch value is applied by >=2 goroutines and >=3 different API functions are each called by >=2 goroutines; distinct = distinct serialised workload"
 
 var unitV5 = ev.Unit[Case]{Name: "workload-v5", Rule: rule, Draw: draw("v5"), Check: check, Guard: true}
 var unitLegacy = ev.Unit[Case]{Name: "workload-legacy", Rule: rule, Draw: draw("legacy"), Check: check, Guard: true}
